@@ -1188,23 +1188,43 @@ def run(chk: Check) -> None:
     proved = chk.prove(MODS, checker=thorough)
     chk.log(f"Lean done at {time.time() - t_start:.1f} s")
 
-    # all driver requests of the five validation stages go through ONE driver process
-    stages = [validate_operators(chk, rng), validate_catalogue(chk, rng, gen, thorough), validate_sweeps(chk, gen),
-              validate_tensor(chk, rng, gen), validate_bind_returned(chk),
-              validate_graphs(chk, rng, gen, thorough), validate_gops(chk)]
-    reqs = [next(g) for g in stages]
-    chk.log(f"real-code side of the correspondence done at {time.time() - t_start:.1f} s "
-            f"({sum(len(r) for r in reqs)} driver requests)")
-    answers = common.run_driver("C01", [l for r in reqs for l in r], timeout=1800)
-    outs, pos = [], 0
-    for g, r in zip(stages, reqs):
-        try:
-            g.send(answers[pos:pos + len(r)])
-            raise RuntimeError("validation stage did not finish")
-        except StopIteration as st:
-            outs.append(st.value)
-        pos += len(r)
+    def measure(rng):
+        # all driver requests of the validation stages go through ONE driver process
+        stages = [validate_operators(chk, rng), validate_catalogue(chk, rng, gen, thorough), validate_sweeps(chk, gen),
+                  validate_tensor(chk, rng, gen), validate_bind_returned(chk),
+                  validate_graphs(chk, rng, gen, thorough), validate_gops(chk)]
+        reqs = [next(g) for g in stages]
+        chk.log(f"real-code side of the correspondence done at {time.time() - t_start:.1f} s "
+                f"({sum(len(r) for r in reqs)} driver requests)")
+        answers = common.run_driver("C01", [l for r in reqs for l in r], timeout=1800)
+        outs, pos = [], 0
+        for g, r in zip(stages, reqs):
+            try:
+                g.send(answers[pos:pos + len(r)])
+                raise RuntimeError("validation stage did not finish")
+            except StopIteration as st:
+                outs.append(st.value)
+            pos += len(r)
+        return outs
+
+    rng_state = common.Rng(chk.seed)
+    rng_state.__dict__.update(rng.__dict__)          # the stages of a re-measurement see the same inputs
+    outs = measure(rng)
     op_bad, (oracle_mm, tie_bad), sweeps, (t_mm, t_tie), bind_bad, (g_mm, g_tie, g_jax), gop_bad = outs
+    if [b for b in tie_bad if b["what"] == "recipe"] or t_tie or g_tie:
+        # A disagreement between the Lean evaluation of a regenerated recipe and ONNX Runtime is measured a
+        # second time (fresh sessions, same inputs): a change of /repo reproduces, a transient hiccup of the
+        # runtime does not. Only what both measurements show is kept.
+        chk.log("recipe correspondence: disagreement measured, measuring again")
+        outs2 = measure(rng_state)
+        _, (_, tie_bad2), _, (_, t_tie2), _, (_, g_tie2, _), _ = outs2
+        same = lambda xs, ys: [x for x in xs if any(json.dumps(x, sort_keys=True, default=str) ==
+                                                    json.dumps(y, sort_keys=True, default=str) for y in ys)]
+        dropped = (len(tie_bad) - len(same(tie_bad, tie_bad2)), len(t_tie) - len(same(t_tie, t_tie2)),
+                   len(g_tie) - len(same(g_tie, g_tie2)))
+        tie_bad, t_tie, g_tie = same(tie_bad, tie_bad2), same(t_tie, t_tie2), same(g_tie, g_tie2)
+        chk.info("recipe_tie_remeasured", {"not_reproduced": dropped})
+        chk.log(f"recipe correspondence: {sum(dropped)} disagreement(s) did not reproduce and were dropped")
     chk.log(f"catalogue validation done at {time.time() - t_start:.1f} s")
 
     # ---- infrastructure-level disagreement: the hand-written semantics contradict the runtime
